@@ -429,6 +429,16 @@ def build(tier, repo):
             else:
                 r6.violation("%s:rst prefix" % fn, "doc/source/lapack.rst:%s" % py, "manual signature is not a prefix of the keyword list",
                              kws[:len(names)], names)
+    from .. import cmisc_rules as mr5
+    from .. import crefusal
+    r8 = chk.rule("C18-R8", "no refusal of a wrapper is dead (repeats a test its block has already made)",
+                  "size-inconsistent arguments raise TypeError/ValueError: the check a message announces exists")
+    chk.note_analysed("refusals_checked", crefusal.dead_refusal_rule(r8, c, wrappers))
+    r8.require(300)
+    r9 = chk.rule("C18-R9", "free() is applied to local work arrays only, never to a Python object argument",
+                  "arguments are left intact on every exit, including allocation failures")
+    chk.note_analysed("frees_checked", mr5.free_local_rule(r9, {"lapack.c": c}, ["lapack.c"]))
+    r9.require(20)
     r6.require(150)
     return chk
 
